@@ -1,6 +1,7 @@
 import Driver.Proto
 import PvModel.Loop
 import PvModel.Utils
+import PvModel.Pool
 /-! Driver handlers for the selection helpers / combinators (`sel.*`) and the optimise loop (`loop.*`). -/
 open Lean Proto
 
@@ -106,6 +107,11 @@ def handleLoop (op : String) (j : Json) : Except String Json := do
     .ok (rExcept (fun (p : Result Float × Nat × Book Float) =>
       Json.mkObj [("evolution", rList (rList rAgentTC) p.1.evolution), ("rates", rList rFloat p.1.rates),
                   ("best", rAgentTC p.1.best), ("steps", rNat p.2.1)]) r)
+  | "pool.greedy" =>
+    let pop ← getPop (← field j "pop")
+    let new ← getPop (← field j "new")
+    let σ ← getNats (← field j "sigma")
+    .ok (rExcept rTags (greedyPopulationPooled pop new σ))
   | "loop.trend" =>
     -- the trend utilities on a recorded evolution: costs of the idx-th best agent of each requested generation
     let gens ← (← getArr (← field j "gens")).mapM getPop
